@@ -975,6 +975,11 @@ impl<'a, 'b, 'ast> Visit<'ast> for BodyV<'a, 'b> {
         for p in c.inputs.iter() {
             self.visit_pat(p);
         }
+        if !self.closure_rewritten {
+            if let ReturnType::Type(_, t) = &c.output {
+                self.visit_type(t);
+            }
+        }
         self.visit_expr(&c.body);
         self.closure_depth -= 1;
         self.closure_ctx = saved_ctx;
